@@ -11,6 +11,11 @@ outputs with which content) is observed by running the same tool on a directory 
 that file; these per-file behaviours are handed to the compiled model, which replays the loop
 (try/except structure, output naming, directory mapping) over the whole list; the two resulting
 file systems must agree.  The oracle restates the property over the observation alone.
+
+What a produced file holds is its canonical content tree (all attributes and typed values); for valid
+inputs it must equal the content of the abstract document the input was rendered from.  The stream
+"runs" repeats the tools in one process over shared output locations: every run must create its own
+new directory and leave everything that was there before alone.
 """
 import hashlib
 import io
@@ -73,20 +78,501 @@ TEXTS = [TEXT, u"note: measured on day one: see the lab book %(tag)s\n", u"{\"Do
 KIND_EXT = {"xml10w": ".xml", "xml11w": ".xml", "xml10": ".xml", "json10": ".json", "yaml10": ".yaml", "xml11": ".xml", "odml11": ".odml",
             "json11": ".json", "yaml11": ".yaml", "empty": ".xml", "empty_json": ".json",
             "empty_yaml": ".yaml", "text": ".xml", "text_json": ".json", "text_yaml": ".yaml",
-            "text_odml": ".odml", "malformed": ".xml", "othervocab": ".xml"}
+            "text_odml": ".odml", "malformed": ".xml", "othervocab": ".xml",
+            # other encodings of valid files, bytes that are no text at all, blank files, and
+            # directories whose names match the file patterns of the tools
+            "xml10l": ".xml", "xml10b": ".xml", "xml11u": ".xml", "binary": ".xml", "binary_json": ".json",
+            "binary_yaml": ".yaml", "blank": ".xml", "blank_json": ".json", "blank_yaml": ".yaml",
+            "dir_xml": ".xml", "dir_odml": ".odml", "dir_json": ".json", "dir_yaml": ".yaml"}
 CLI_KINDS = sorted(KIND_EXT)
-FC_GOOD = {"v1_1": ["xml10", "xml11", "xml10w"], "other": ["xml11", "odml11", "xml11w"]}
-FC_BAD = ["empty", "text", "malformed", "json11"]
+FC_GOOD = {"v1_1": ["xml10", "xml11", "xml10w", "xml10l", "xml10b"], "other": ["xml11", "odml11", "xml11w", "xml11u"]}
+FC_BAD = ["empty", "text", "malformed", "json11", "binary", "blank"]
 FC_FORMATS = ["v1_1", "odml", "turtle", "xml", "nt", "n3", "json-ld", "pretty-xml", "ttl"]
 DIR_NAMES = ["in", "in+dir(1)", "in[1]", "c++", "in.d", "a b", "in$", "x{2}", "in|out", "in*x", "in?",
              "^in", "in\\d", "(in)", "data"]
+# how the directories are spelled on the command line: absolute, with a trailing separator, relative
+# to the working directory (output root "."), with "." / ".." segments
+ARG_STYLES = ["abs", "abs", "trail", "rel", "dot"]
 SUB_NAMES = ["sub", "main", "x", "in", "s.1", "a+b"]
+# base names: several dots, blanks, non-ASCII, glob / regex / format metacharacters, digits only,
+# "_conv" inside the name (a name that *ends* in _conv next to its prefix is the known collision)
+STEM_FORMS = [u"a.b%d", u"sp ace%d", u"ü%d", u"x[%d]", u"p+q(%d)", u"UP%d", u"tr.%d.", u"-dash%d", u"%d",
+              u"c_conv%d", u"st*r%d", u"q?%d", u"am&p%d", u"perc%%s%d", u"quo'te%d", u"{%d}", u"xml%d.json"]
 RDF_BY_EXT = {".rdf": "xml", ".ttl": "turtle", ".nt": "nt", ".n3": "n3", ".jsonld": "json-ld"}
 
 
-def content(kind, tag):
+# ----------------------------------------------------------------------------- abstract documents
+# "Each output loads as a current-version document (or parses as RDF) with the content of its
+# source": the valid file kinds can also be rendered from an abstract document (spec["doc"]) with
+# several sections, nesting, properties of every dtype and values at the boundaries (0, 0.0, False,
+# negative, huge, texts that look like numbers, non-ASCII, 11 values / properties).  The text
+# "TAGQ" inside names and values is replaced by the tag of the file.  What the outputs must hold is
+# computed from the abstract document here (expected_tree), not by the library.
+VALUE_POOL = {
+    "int": [0, 1, -1, 7, 10, 42, -300, 2 ** 40, 2 ** 70],
+    "float": [0.0, 2.5, -0.5, 1e-07, 1e+22, 3.0, 100.25],
+    "boolean": [False, True],
+    # not in the pool (the 1.1 format itself cannot hold them, with or without a conversion): the
+    # empty text (odML treats it as "no value"), texts with commas / brackets (list syntax of the
+    # value element), leading / trailing blanks and line breaks (stripped on reading)
+    "string": [u"zero", u"a b", u"é€", u"x_TAGQ", u"0", u"False", u"None", u"1e5", u"v.1", u"a<b&c>d",
+               u"q\"uote", u"it's", u"semi;colon: x", u"tab\there", u"-", u"0.0", u"true"],
+    "text": [u"some longer text", u"line TAGQ"],
+    "date": [u"2011-12-01", u"1999-01-31", u"0999-05-05"],
+    "time": [u"12:00:01", u"00:00:00"],
+    "datetime": [u"2011-12-01 12:00:01", u"2000-01-01 00:00:00", u"0999-05-05 01:02:03"],
+    "url": [u"https://example.org/TAGQ"],
+    "person": [u"Jane Doe"],
+}
+OLD_KINDS = ("xml10", "json10", "yaml10", "xml10w", "xml10l", "xml10b")
+NEW_KINDS = ("xml11", "odml11", "json11", "yaml11", "xml11w", "xml11u")
+DOC_KINDS = ("xml10", "json10", "yaml10", "xml11", "odml11", "json11", "yaml11")
+
+
+def gen_prop(rng, i):
+    dtype = rng.choice(sorted(VALUE_POOL))
+    nval = rng.choice([0, 1, 1, 1, 1, 2, 2, 3, 3, 11])
+    values = [rng.choice(VALUE_POOL[dtype]) for _ in range(nval)]
+    prop = {"name": rng.choice([u"prop_TAGQ_%d", u"p%d", u"P ü %d", u"prop.%d"]) % i,
+            "dtype": dtype if nval else None, "values": values, "unit": None, "uncertainty": None,
+            "definition": None}
+    if nval and dtype in ("int", "float") and rng.random() < 0.5:
+        prop["unit"] = rng.choice([u"mV", u"s", u"µm", u"0"])
+    if nval and dtype in ("int", "float") and rng.random() < 0.5:
+        prop["uncertainty"] = rng.choice([0.0, 0.5, 2.0, 1e-05, 0])
+    if rng.random() < 0.3:
+        prop["definition"] = rng.choice([u"def TAGQ", u"déf", u"0"])
+    # attributes that moved or were renamed between the versions (old style: filename and reference
+    # sit on the value entries, dependency_value is written with an underscore), and old-style
+    # entries without a counterpart (noise: must be dropped without disturbing the rest)
+    if nval and rng.random() < 0.25:
+        prop["value_origin"] = rng.choice([u"data_TAGQ.csv", u"0"])
+    if nval and rng.random() < 0.25:
+        prop["reference"] = rng.choice([u"ref TAGQ", u"0"])
+    if rng.random() < 0.25:
+        prop["dependency"] = u"other_TAGQ"
+        prop["dependency_value"] = rng.choice([u"0", u"on"])
+    if rng.random() < 0.25:
+        prop["noise"] = True
+    return prop
+
+
+def gen_sec(rng, depth, idx):
+    sec = {"name": rng.choice([u"sec_TAGQ_%s", u"s%s", u"S ü %s"]) % idx,
+           "type": rng.choice([u"mainsec", u"recording/x", u"t", u"0"]),
+           "definition": rng.choice([None, None, u"sdef TAGQ"]), "props": [], "sections": []}
+    for i in range(rng.choice([0, 1, 1, 2, 2, 3, 3, 11] if depth == 0 else [0, 1, 2])):
+        sec["props"].append(gen_prop(rng, i))
+    if depth < 2:
+        for i in range(rng.choice([0, 0, 1, 2])):
+            sec["sections"].append(gen_sec(rng, depth + 1, "%s_%d" % (idx, i)))
+    return sec
+
+
+def gen_doc(rng):
+    """native: JSON/YAML values as numbers / booleans (else as texts, like the bundled fixtures);
+    first_only: dtype/unit/uncertainty on the first old-style value only; value_last: key order
+    inside an old-style value entry; raw_unicode: JSON/YAML written without \\u escapes."""
+    doc = {"author": rng.choice([None, u"author_TAGQ", u"René TAGQ"]),
+           "version": rng.choice([None, u"v1.13", u"3", u"0"]),
+           "date": rng.choice([None, u"2008-07-07", u"1999-12-31"]), "sections": [],
+           "native": rng.random() < 0.6, "first_only": rng.random() < 0.3,
+           "value_last": rng.random() < 0.3, "raw_unicode": rng.random() < 0.5}
+    for i in range(rng.choice([0, 1, 1, 2, 3])):
+        doc["sections"].append(gen_sec(rng, 0, str(i)))
+    return doc
+
+
+def full_doc(native, first_only=False, value_last=False):
+    """Every dtype with every value of its pool: all of them in one property, and each of them as
+    the only value of a property of its own; units and uncertainties at their boundaries too."""
+    props = []
+    for dtype in sorted(VALUE_POOL):
+        pool = VALUE_POOL[dtype]
+        props.append({"name": u"all_%s" % dtype, "dtype": dtype, "values": list(pool), "unit": None,
+                      "uncertainty": None, "definition": None})
+        for i, val in enumerate(pool):
+            numeric = dtype in ("int", "float")
+            props.append({"name": u"%s_%d" % (dtype, i), "dtype": dtype, "values": [val],
+                          "unit": [u"mV", u"0", None][i % 3] if numeric else None,
+                          "uncertainty": [0, 0.0, 0.5, None][i % 4] if numeric else None,
+                          "definition": [None, u"def TAGQ", u"0"][i % 3],
+                          "value_origin": [None, u"0", u"data_TAGQ.csv"][i % 3],
+                          "reference": [u"0", None, u"ref TAGQ"][i % 3],
+                          "dependency": [None, u"all_int"][i % 2], "dependency_value": [None, u"0"][i % 2],
+                          "noise": i % 2 == 1})
+    props.append({"name": u"no_value", "dtype": None, "values": [], "unit": None, "uncertainty": None,
+                  "definition": None})
+    sub = {"name": u"sub_TAGQ", "type": u"0", "definition": None, "sections": [],
+           "props": [dict(props[1], name=u"again")]}
+    return {"author": u"author_TAGQ", "version": u"0", "date": u"1999-12-31",
+            "sections": [{"name": u"sec_TAGQ", "type": u"mainsec", "definition": u"sdef TAGQ", "props": props,
+                          "sections": [sub]},
+                         {"name": u"empty_TAGQ", "type": u"t", "definition": None, "props": [], "sections": []}],
+            "native": native, "first_only": first_only, "value_last": value_last, "raw_unicode": native}
+
+
+def template_doc(kind):
+    """The abstract document of the fixed texts V10_XML / V10_JSON / ... (files without spec["doc"])."""
+    wide = kind in ("xml10w", "xml11w", "xml10l")
+    val = {"xml10w": u"é€中", "xml11w": u"é€中", "xml10l": u"éü"}.get(kind, 1)
+    author = {"xml10w": u"René € TAGQ", "xml11w": u"René € TAGQ",
+              "xml10l": u"René TAGQ"}.get(kind, u"author_TAGQ")
+    old = kind in OLD_KINDS
+    return {"author": author, "version": u"v1.13" if kind in ("json10", "yaml10") else None,
+            "date": u"2008-07-07" if kind in ("xml10", "xml10w", "xml10l", "xml10b") else None,
+            "sections": [{"name": u"sec_TAGQ", "type": u"mainsec", "definition": None, "sections": [],
+                          "props": [{"name": u"prop_TAGQ", "dtype": "string" if wide else "int", "values": [val],
+                                     "unit": None, "uncertainty": None, "definition": None}]}],
+            "template": True, "old": old}
+
+
+def _tq(text, tag):
+    return text.replace(u"TAGQ", tag) if isinstance(text, str) else text
+
+
+def _by_name(node):
+    """Sort key of a section / property of a content tree: the name (unique among siblings)."""
+    return (u"%s" % (node.get("name"),), fw.canon(dict(node, dependency=None, dependency_value=None)))
+
+
+def canon_value(val):
+    import datetime
+    if isinstance(val, bool):
+        return "b:%s" % val
+    if isinstance(val, int):
+        return "i:%d" % val
+    if isinstance(val, float):
+        return "f:%r" % val
+    if isinstance(val, (datetime.date, datetime.time)):
+        return "d:%s" % val.isoformat()
+    return u"s:%s" % (val,)
+
+
+def expected_value(dtype, val, tag):
+    import datetime
+    if dtype == "date":
+        return canon_value(datetime.date.fromisoformat(val))
+    if dtype == "time":
+        return canon_value(datetime.time.fromisoformat(val))
+    if dtype == "datetime":
+        return canon_value(datetime.datetime.strptime(val, "%Y-%m-%d %H:%M:%S"))
+    if dtype == "float":
+        return canon_value(float(val))
+    return canon_value(_tq(val, tag))
+
+
+def expected_tree(doc, tag):
+    """Canonical content of an abstract document (sections / properties sorted, values in order)."""
+    def prop(p):
+        return {"name": _tq(p["name"], tag), "dtype": p["dtype"], "unit": p["unit"],
+                "uncertainty": None if p["uncertainty"] is None else repr(float(p["uncertainty"])),
+                "definition": _tq(p["definition"], tag),
+                "value_origin": _tq(p.get("value_origin"), tag), "reference": _tq(p.get("reference"), tag),
+                "dependency": _tq(p.get("dependency"), tag), "dependency_value": p.get("dependency_value"),
+                "values": [expected_value(p["dtype"], v, tag) for v in p["values"]]}
+
+    def sec(s):
+        return {"name": _tq(s["name"], tag), "type": _tq(s["type"], tag), "definition": _tq(s["definition"], tag),
+                "props": sorted((prop(p) for p in s["props"]), key=_by_name),
+                "sections": sorted((sec(c) for c in s["sections"]), key=_by_name)}
+    return {"author": _tq(doc["author"], tag), "version": doc["version"], "date": doc["date"],
+            "sections": sorted((sec(s) for s in doc["sections"]), key=_by_name)}
+
+
+def doc_tree(doc):
+    """The same canonical content read from a loaded odml.Document (public attributes only)."""
+    def unc(u):
+        try:
+            return None if u is None else repr(float(u))
+        except (TypeError, ValueError):
+            return "?%r" % (u,)
+
+    def prop(p):
+        return {"name": p.name, "dtype": p.dtype, "unit": p.unit, "uncertainty": unc(p.uncertainty),
+                "definition": p.definition, "value_origin": p.value_origin, "reference": p.reference,
+                "dependency": p.dependency, "dependency_value": p.dependency_value,
+                "values": [canon_value(v) for v in p.values]}
+
+    def sec(s):
+        return {"name": s.name, "type": s.type, "definition": s.definition,
+                "props": sorted((prop(p) for p in s.properties), key=_by_name),
+                "sections": sorted((sec(c) for c in s.sections), key=_by_name)}
+    return {"author": doc.author, "version": doc.version,
+            "date": None if doc.date is None else doc.date.isoformat(),
+            "sections": sorted((sec(s) for s in doc.sections), key=_by_name)}
+
+
+def rdf_tree(graph):
+    """The same canonical content read from a parsed odML RDF graph (rdflib), by the odml-rdf
+    vocabulary: Document -hasSection-> Section -hasProperty-> Property -hasValue-> rdf:Seq."""
+    import rdflib
+    by_subj = {}
+    for s, p, o in graph:
+        text = str(p)
+        local = text.rsplit("#", 1)[-1] if "#" in text else text.rsplit("/", 1)[-1]
+        by_subj.setdefault(s, []).append((local, o))
+
+    def pyval(o):
+        """Canonical value of a literal; rdflib hands back the Literal itself when it does not
+        accept the lexical form for the declared datatype (it does so for 1e-05 as xsd:double)."""
+        py = o.toPython()
+        if isinstance(py, rdflib.term.Node):
+            kind = str(o.datatype or "").rsplit("#", 1)[-1]
+            try:
+                if kind in ("double", "float", "decimal"):
+                    return canon_value(float(str(o)))
+                if kind in ("integer", "int", "long"):
+                    return canon_value(int(str(o)))
+            except ValueError:
+                pass
+            return u"s:%s" % o
+        return canon_value(py)
+
+    def lit(node, name):
+        found = sorted(pyval(o) for k, o in by_subj.get(node, []) if k == name and isinstance(o, rdflib.Literal))
+        if not found:
+            return None
+        return found[0] if len(found) == 1 else found
+
+    def text(node, name):
+        got = lit(node, name)
+        return got[2:] if isinstance(got, str) and got[:2] in ("s:", "d:") else got
+
+    def refs(node, name):
+        return [o for k, o in by_subj.get(node, []) if k == name and not isinstance(o, rdflib.Literal)]
+
+    def values(node):
+        out = []
+        for seq in refs(node, "hasValue"):
+            members = sorted((int(k[1:]), o) for k, o in by_subj.get(seq, []) if k[:1] == "_" and k[1:].isdigit())
+            for _i, o in members:
+                out.append(pyval(o) if isinstance(o, rdflib.Literal) else u"ref:%s" % o)
+        return out
+
+    def prop(node):
+        unc = lit(node, "hasUncertainty")
+        if isinstance(unc, str) and unc[:2] in ("f:", "i:", "s:"):
+            try:                                  # the number, whether typed or written as plain text
+                unc = repr(float(unc[2:]))
+            except ValueError:
+                pass
+        # (the odml-rdf vocabulary has no terms for dependency / dependency value)
+        return {"name": text(node, "hasName"), "dtype": text(node, "hasDtype"), "unit": text(node, "hasUnit"),
+                "uncertainty": unc, "definition": text(node, "hasDefinition"),
+                "value_origin": text(node, "hasValueOrigin"), "reference": text(node, "hasReference"),
+                "dependency": "n/a", "dependency_value": "n/a", "values": values(node)}
+
+    def sec(node, depth):
+        if depth > 50:
+            return {"name": "cycle"}
+        return {"name": text(node, "hasName"), "type": text(node, "hasType"), "definition": text(node, "hasDefinition"),
+                "props": sorted((prop(p) for p in refs(node, "hasProperty")), key=_by_name),
+                "sections": sorted((sec(c, depth + 1) for c in refs(node, "hasSection")), key=_by_name)}
+    docs = [s for s, pairs in by_subj.items()
+            if any(k == "type" and str(o).endswith("#Document") for k, o in pairs)]
+    if len(docs) != 1:
+        return {"documents": len(docs)}
+    node = docs[0]
+    return {"author": text(node, "hasAuthor"), "version": text(node, "hasDocVersion"), "date": text(node, "hasDate"),
+            "sections": sorted((sec(s, 0) for s in refs(node, "hasSection")), key=_by_name)}
+
+
+def tree_diff(want, got, path=""):
+    if isinstance(want, dict) and isinstance(got, dict):
+        out = []
+        for key in sorted(set(want) | set(got)):
+            out += tree_diff(want.get(key), got.get(key), "%s/%s" % (path, key))
+        return out
+    if isinstance(want, list) and isinstance(got, list) and len(want) == len(got):
+        out = []
+        for i, (a, b) in enumerate(zip(want, got)):
+            out += tree_diff(a, b, "%s[%d]" % (path, i))
+        return out
+    return [] if want == got else ["%s: source %r, output %r" % (path, want, got)]
+
+
+def content_failure(spec, sig):
+    """The content clause for one output of a valid file: the signature of the output (in STEMX /
+    TAGX form) against the canonical content of the abstract document the file was rendered from."""
+    want = expected_tree(spec.get("doc") or template_doc(spec["kind"]), "TAGX")
+    prefix = sig[:4]
+    if prefix not in ("DOC:", "RDF:"):
+        return [sig]
+    try:
+        got = json.loads(sig[4:])
+    except ValueError:
+        return [sig]
+    if prefix == "RDF:":
+        def blank(sec):
+            for prop in sec["props"]:
+                prop["dependency"] = prop["dependency_value"] = "n/a"
+            for sub in sec["sections"]:
+                blank(sub)
+        for sec in want["sections"]:
+            blank(sec)
+    return tree_diff(want, got)[:4]
+
+
+def tree_sig(prefix, tree):
+    return prefix + json.dumps(tree, sort_keys=True, ensure_ascii=False)
+
+
+def render10_xml(doc, tag):
+    from xml.sax.saxutils import escape
+    out = [u'<?xml version="1.0" encoding="UTF-8"?>', u'<odML version="1">']
+
+    def elem(name, text, ind):
+        if text is not None:
+            out.append(u"%s<%s>%s</%s>" % (ind, name, escape(_tq(text, tag)), name))
+
+    def sec(s, ind):
+        out.append(ind + u"<section>")
+        elem("name", s["name"], ind + "  ")
+        elem("type", s["type"], ind + "  ")
+        elem("definition", s["definition"], ind + "  ")
+        for p in s["props"]:
+            out.append(ind + u"  <property>")
+            elem("name", p["name"], ind + "    ")
+            elem("definition", p["definition"], ind + "    ")
+            elem("dependency", p.get("dependency"), ind + "    ")
+            elem("dependency_value", p.get("dependency_value"), ind + "    ")
+            if p.get("noise"):
+                elem("mapping", u"map#TAGQ", ind + "    ")
+                elem("synonym", u"syn", ind + "    ")
+            for i, v in enumerate(p["values"]):
+                attrs = u""
+                if i == 0 or not doc.get("first_only"):
+                    attrs += u"<type>%s</type>" % p["dtype"]
+                    if p["unit"] is not None:
+                        attrs += u"<unit>%s</unit>" % escape(p["unit"])
+                    if p["uncertainty"] is not None:
+                        attrs += u"<uncertainty>%s</uncertainty>" % p["uncertainty"]
+                    if p.get("value_origin") is not None:
+                        attrs += u"<filename>%s</filename>" % escape(_tq(p["value_origin"], tag))
+                    if p.get("reference") is not None:
+                        attrs += u"<reference>%s</reference>" % escape(_tq(p["reference"], tag))
+                    if p.get("noise"):
+                        attrs += u"<checksum>crc32$0</checksum><encoder>none</encoder>"
+                out.append(u"%s    <value>%s%s</value>" % (ind, escape(_tq(u"%s" % (v,), tag)), attrs))
+            out.append(ind + u"  </property>")
+        for c in s["sections"]:
+            sec(c, ind + "  ")
+        out.append(ind + u"</section>")
+    elem("date", doc["date"], "  ")
+    for s in doc["sections"]:
+        sec(s, "  ")
+    elem("author", doc["author"], "  ")
+    elem("version", doc["version"], "  ")
+    out.append(u"</odML>")
+    return u"\n".join(out) + u"\n"
+
+
+def render10_dict(doc, tag):
+    def value(p, i, v):
+        v = _tq(v, tag)
+        entry = [("value", v if doc.get("native") else u"%s" % (v,))]
+        if i == 0 or not doc.get("first_only"):
+            entry.append(("dtype", p["dtype"]))
+            if p["unit"] is not None:
+                entry.append(("unit", p["unit"]))
+            if p["uncertainty"] is not None:
+                entry.append(("uncertainty", p["uncertainty"] if doc.get("native") else u"%s" % p["uncertainty"]))
+            if p.get("value_origin") is not None:
+                entry.append(("filename", _tq(p["value_origin"], tag)))
+            if p.get("reference") is not None:
+                entry.append(("reference", _tq(p["reference"], tag)))
+            if p.get("noise"):
+                entry += [("checksum", u"crc32$0"), ("encoder", u"none")]
+        if doc.get("value_last"):
+            entry = entry[1:] + entry[:1]
+        return dict(entry)
+
+    def prop(p):
+        out = {"name": _tq(p["name"], tag)}
+        if p["definition"] is not None:
+            out["definition"] = _tq(p["definition"], tag)
+        if p.get("dependency") is not None:
+            out["dependency"] = _tq(p["dependency"], tag)
+            out["dependency_value"] = p["dependency_value"]
+        if p.get("noise"):
+            out["mapping"] = _tq(u"map#TAGQ", tag)
+            out["synonym"] = u"syn"
+        out["values"] = [value(p, i, v) for i, v in enumerate(p["values"])]
+        return out
+
+    def sec(s):
+        out = {"name": _tq(s["name"], tag), "type": _tq(s["type"], tag)}
+        if s["definition"] is not None:
+            out["definition"] = _tq(s["definition"], tag)
+        if s["props"] or doc.get("native"):
+            out["properties"] = [prop(p) for p in s["props"]]
+        if s["sections"] or not doc.get("native"):
+            out["sections"] = [sec(c) for c in s["sections"]]
+        return out
+    top = {}
+    for key in ("author", "version", "date"):
+        if doc[key] is not None:
+            top[key] = _tq(doc[key], tag)
+    top["sections"] = [sec(s) for s in doc["sections"]]
+    return {"Document": top, "odml-version": "1"}
+
+
+def build11(doc, tag):
+    import odml
+    out = odml.Document(author=_tq(doc["author"], tag), version=doc["version"], date=doc["date"])
+
+    def sec(s, parent):
+        cur = odml.Section(name=_tq(s["name"], tag), type=_tq(s["type"], tag), definition=_tq(s["definition"], tag),
+                           parent=parent)
+        for p in s["props"]:
+            if p["values"]:
+                odml.Property(name=_tq(p["name"], tag), values=[_tq(v, tag) for v in p["values"]], dtype=p["dtype"],
+                              unit=p["unit"], uncertainty=p["uncertainty"], definition=_tq(p["definition"], tag),
+                              value_origin=_tq(p.get("value_origin"), tag), reference=_tq(p.get("reference"), tag),
+                              dependency=_tq(p.get("dependency"), tag), dependency_value=p.get("dependency_value"),
+                              parent=cur)
+            else:
+                odml.Property(name=_tq(p["name"], tag), definition=_tq(p["definition"], tag),
+                              dependency=_tq(p.get("dependency"), tag), dependency_value=p.get("dependency_value"),
+                              parent=cur)
+        for c in s["sections"]:
+            sec(c, cur)
+    for s in doc["sections"]:
+        sec(s, out)
+    return out
+
+
+def render_doc(kind, doc, tag):
+    from odml.tools.odmlparser import ODMLWriter
+    if kind == "xml10":
+        return render10_xml(doc, tag)
+    if kind == "json10":
+        return json.dumps(render10_dict(doc, tag), indent=1, ensure_ascii=not doc.get("raw_unicode")) + u"\n"
+    if kind == "yaml10":
+        import yaml
+        return yaml.safe_dump(render10_dict(doc, tag), default_flow_style=False,
+                              allow_unicode=bool(doc.get("raw_unicode")))
+    built = build11(doc, tag)
+    if kind in ("xml11", "odml11"):
+        return u'<?xml version="1.0" encoding="UTF-8"?>\n' + ODMLWriter("XML").to_string(built)
+    text = ODMLWriter("JSON" if kind == "json11" else "YAML").to_string(built)
+    if doc.get("raw_unicode"):
+        # the same file as another program would write it: UTF-8 text instead of \u escapes
+        import yaml
+        if kind == "json11":
+            text = json.dumps(json.loads(text), indent=2, ensure_ascii=False) + u"\n"
+        else:
+            text = yaml.safe_dump(yaml.safe_load(text), default_flow_style=False, allow_unicode=True)
+    return text
+
+
+
+def content(kind, tag, doc=None):
     import odml
     from odml.tools.odmlparser import ODMLWriter
+    if doc is not None:
+        return render_doc(kind, doc, tag)
     if kind == "xml10":
         return V10_XML % {"tag": tag}
     if kind == "xml10w":
@@ -111,6 +597,15 @@ def content(kind, tag):
         return u""
     if kind.startswith("text"):
         return TEXTS[sum(ord(ch) for ch in tag) % len(TEXTS)] % {"tag": tag}
+    if kind == "xml10b":
+        return V10_XML % {"tag": tag}
+    if kind == "xml10l":
+        return V10_XML.replace(u"UTF-8", u"ISO-8859-1").replace(u"author_%(tag)s", u"René %(tag)s") \
+            .replace(u"<value>1<type>int</type></value>", u"<value>éü<type>string</type></value>") % {"tag": tag}
+    if kind == "xml11u":
+        return content("xml11", tag).replace(u'encoding="UTF-8"', u'encoding="UTF-16"')
+    if kind.startswith("blank"):
+        return u" \n\t\n  \n"
     if kind == "malformed":
         return MALFORMED % {"tag": tag}
     if kind == "othervocab":
@@ -119,24 +614,18 @@ def content(kind, tag):
 
 
 def signature(path):
-    """What a produced file holds: names found in the loaded document / parsed graph."""
+    """What a produced file holds: the canonical content (document attributes, sections, properties,
+    dtypes, units, uncertainties, definitions, values) of the loaded document / parsed graph."""
     ext = os.path.splitext(path)[1]
     try:
         if ext in (".xml", ".odml"):
             import odml
-            doc = odml.load(path, "XML", show_warnings=False)
-            names = [str(doc.author)]
-            for sec in doc.itersections(recursive=True):
-                names.append(str(sec.name))
-                names += [str(p.name) for p in sec.properties]
-            return "DOC:" + ",".join(names)
+            return tree_sig("DOC:", doc_tree(odml.load(path, "XML", show_warnings=False)))
         if ext in RDF_BY_EXT:
             import rdflib
             graph = rdflib.Graph()
             graph.parse(path, format=RDF_BY_EXT[ext])
-            names = sorted(str(o) for _s, p, o in graph
-                           if str(p).endswith("hasName") or str(p).endswith("hasAuthor"))
-            return "RDF:" + ",".join(names)
+            return tree_sig("RDF:", rdf_tree(graph))
         return "OTHER"
     except Exception as exc:
         return "UNREADABLE:" + fw.exc_name(exc)
@@ -162,6 +651,36 @@ def all_paths(root):
     return out
 
 
+# the trees are small and short-lived: a memory file system, where there is one, keeps the run time
+# independent of the load on the disk
+TMP_ROOT = "/dev/shm" if os.path.isdir("/dev/shm") and os.access("/dev/shm", os.W_OK | os.X_OK) else None
+OLD_TIME = 946684800          # 2000-01-01: every file present before a run is given this mtime
+
+
+def age_files(root):
+    """Snapshot {relative path: sha1} of all files under root; their mtime is set to OLD_TIME so that
+    a file written again with the same bytes is still seen as written."""
+    snap = hashes(root)
+    for rel in snap:
+        os.utime(os.path.join(root, rel), (OLD_TIME, OLD_TIME))
+    return snap
+
+
+def written_again(root, snap):
+    """Files of the snapshot that were removed, changed or written again (mtime no longer OLD_TIME)."""
+    out = []
+    for rel, digest in sorted(snap.items()):
+        path = os.path.join(root, rel)
+        if not os.path.isfile(path):
+            out.append(rel)
+            continue
+        with io.open(path, "rb") as fh:
+            same = hashlib.sha1(fh.read()).hexdigest() == digest
+        if not same or int(os.stat(path).st_mtime) != OLD_TIME:
+            out.append(rel)
+    return out
+
+
 def run_guarded(fn):
     try:
         fn()
@@ -174,13 +693,30 @@ def file_name(spec):
     return "%s%s" % (spec["stem"], KIND_EXT[spec["kind"]])
 
 
+def content_bytes(spec):
+    kind = spec["kind"]
+    if kind.startswith("binary"):
+        return b"\x00\xff\xfe\x80PK\x03\x04\x00\xc3(" + spec["tag"].encode("utf-8") + b"\x00\n"
+    text = content(kind, spec["tag"], spec.get("doc"))
+    if kind == "xml10l":
+        return text.encode("iso-8859-1")
+    if kind == "xml10b":
+        return b"\xef\xbb\xbf" + text.encode("utf-8")
+    if kind == "xml11u":
+        return text.encode("utf-16")
+    return text.encode("utf-8")
+
+
 def write_inputs(in_dir, files):
     for spec in files:
         folder = os.path.join(in_dir, spec["sub"]) if spec["sub"] else in_dir
         if not os.path.isdir(folder):
             os.makedirs(folder)
-        with io.open(os.path.join(folder, file_name(spec)), "w", encoding="utf-8") as fh:
-            fh.write(content(spec["kind"], spec["tag"]))
+        if spec["kind"].startswith("dir_"):
+            os.makedirs(os.path.join(folder, file_name(spec)))
+            continue
+        with io.open(os.path.join(folder, file_name(spec)), "wb") as fh:
+            fh.write(content_bytes(spec))
 
 
 def cli_module(tool):
@@ -204,18 +740,18 @@ def canon_out(rel):
 _ALONE = {}
 
 
-def alone_cli(tool, kind):
+def alone_cli(tool, kind, doc=None):
     """Outputs (canonical path -> signature) of running the tool on a directory holding one file of
-    this kind (stem 'STEMX', tag 'TAGX')."""
-    key = (tool, kind)
+    this kind (stem 'STEMX', tag 'TAGX'; rendered from the abstract document if there is one)."""
+    key = (tool, kind, fw.canon(doc))
     if key in _ALONE:
         return _ALONE[key]
-    base = tempfile.mkdtemp(prefix="c17a_")
+    base = tempfile.mkdtemp(prefix="c17a_", dir=TMP_ROOT)
     try:
         in_dir = os.path.join(base, "in")
         out_root = os.path.join(base, "o")
         os.makedirs(out_root)
-        write_inputs(in_dir, [{"stem": "STEMX", "kind": kind, "tag": "TAGX", "sub": ""}])
+        write_inputs(in_dir, [{"stem": "STEMX", "kind": kind, "tag": "TAGX", "sub": "", "doc": doc}])
         res = run_guarded(lambda: cli_module(tool).main(["-o", out_root, in_dir]))
         outs = {}
         for rel in hashes(out_root):
@@ -226,17 +762,17 @@ def alone_cli(tool, kind):
     return _ALONE[key]
 
 
-def alone_fc(fmt, kind):
-    key = ("fc", fmt, kind)
+def alone_fc(fmt, kind, doc=None):
+    key = ("fc", fmt, kind, fw.canon(doc))
     if key in _ALONE:
         return _ALONE[key]
     from odml.tools.converters import FormatConverter
-    base = tempfile.mkdtemp(prefix="c17a_")
+    base = tempfile.mkdtemp(prefix="c17a_", dir=TMP_ROOT)
     try:
         in_dir = os.path.join(base, "in")
         out_dir = os.path.join(base, "o")
         os.makedirs(out_dir)
-        write_inputs(in_dir, [{"stem": "STEMX", "kind": kind, "tag": "TAGX", "sub": ""}])
+        write_inputs(in_dir, [{"stem": "STEMX", "kind": kind, "tag": "TAGX", "sub": "", "doc": doc}])
         res = run_guarded(lambda: FormatConverter.convert_dir(in_dir, out_dir, False, fmt))
         outs = {}
         for rel in hashes(out_dir):
@@ -293,23 +829,79 @@ class C17(fw.Check):
             "sub-directories, input directory names with regex metacharacters, recursive on/off, explicit / "
             "implicit output directory; both command line tools through main(argv) and FormatConverter "
             "through convert_dir and convert (argparse) for v1_1, odml and seven RDF formats; plus a "
-            "differential stream for the path arithmetic (stem, splitext, join, output naming). Non-trivial = "
+            "differential stream for the path arithmetic (stem, splitext, join, output naming). Half of the valid "
+            "files are rendered from random abstract documents (nesting, every dtype, boundary values, moved / "
+            "renamed attributes) and every output is compared with the content of its source; other encodings, "
+            "binary / blank files and directories named like files; directory arguments absolute / relative / "
+            "dotted; exotic base names; stream 'runs': 2-5 runs in one process sharing output root / working "
+            "directory / output directory, with older material there; child interpreter with an ASCII locale. "
+            "Non-trivial = "
             "at least one output was produced and at least one file was skipped / refused, or the tree is "
             "nested; distinct = distinct canonical JSON of the case.")
 
     # -- generation ----------------------------------------------------------
-    def files(self, rng, kinds, nmax, nested):
+    def files(self, rng, kinds, nmax, nested, prefix=""):
         n = rng.randrange(1, nmax + 1)
+        if rng.random() < 0.04:
+            n = 12                                  # more than ten files (f10, f11 next to f01)
         out = []
         for i in range(n):
             sub = ""
             if nested and rng.random() < 0.5:
-                sub = "/".join(rng.choice(SUB_NAMES) for _ in range(rng.randrange(1, 3)))
+                sub = "/".join(rng.choice(SUB_NAMES) for _ in range(rng.choice([1, 1, 2, 2, 2, 4])))
             kind = rng.choice(kinds)
-            out.append({"stem": "f%02d_%s" % (i, kind.replace("_", "")), "kind": kind,
-                        "tag": "t%d" % rng.randrange(100), "sub": sub})
+            stem = "f%02d_%s" % (i, kind.replace("_", ""))
+            if rng.random() < 0.3:
+                stem = rng.choice(STEM_FORMS) % i
+            spec = {"stem": prefix + stem, "kind": kind, "tag": "t%d" % rng.randrange(100), "sub": sub}
+            if kind in DOC_KINDS and rng.random() < 0.5:
+                spec["doc"] = gen_doc(rng)      # content of the valid file: see "abstract documents"
+            out.append(spec)
         rng.shuffle(out)
         return out
+
+    def gen_runs(self, rng):
+        """2-5 runs in one process.  Input directories of three flavours (any kinds for the command
+        line tools; XML of one version so that the format converter can take them); the command
+        line runs share one output root (explicit, or the working directory), the converter runs
+        share one explicit output directory or use <input>_<format>; the output locations may hold
+        older material (directories and files named like outputs, results of earlier runs)."""
+        inputs = []
+        for j in range(rng.randrange(1, 4)):
+            flavour = rng.choice(["mixed", "mixed", "old_xml", "new_xml"])
+            kinds = {"mixed": CLI_KINDS, "old_xml": ["xml10", "xml10w", "xml10b"],
+                     "new_xml": ["xml11", "odml11", "xml11w"]}[flavour]
+            name = "in%d" % j if rng.random() < 0.7 else "%s%d" % (rng.choice(DIR_NAMES), j)
+            inputs.append((name, flavour, self.files(rng, kinds, 3, rng.random() < 0.3, prefix="i%d" % j)))
+        one_root = rng.random() < 0.6
+        runs = []
+        for _ in range(rng.randrange(2, 6)):
+            name, flavour, files = rng.choice(inputs)
+            if flavour != "mixed" and rng.random() < 0.5:
+                fmt = "v1_1" if flavour == "old_xml" else rng.choice(FC_FORMATS[1:])
+                runs.append({"stream": "fc", "fmt": fmt, "recursive": rng.random() < 0.6,
+                             "explicit_out": rng.random() < 0.6, "in_name": name,
+                             "entry": rng.choice(["convert_dir", "convert"]), "trailing_sep": rng.random() < 0.2,
+                             "relative": rng.random() < 0.2, "files": files})
+            else:
+                run = {"stream": "cli", "tool": rng.choice(["convert", "rdf", "rdf"]),
+                       "recursive": rng.random() < 0.6, "explicit_out": rng.random() < 0.6, "in_name": name,
+                       "arg_style": rng.choice(ARG_STYLES), "files": files}
+                if one_root:
+                    run["root_name"] = "outroot"
+                runs.append(run)
+        pre = []
+        if rng.random() < 0.6:
+            stems = [f["stem"] for _n, _fl, fs in inputs for f in fs]
+            for _ in range(rng.randrange(1, 5)):
+                stem = rng.choice(stems)
+                pre.append(rng.choice([
+                    ["outroot/odmlconv_old/%s_conv.xml" % stem, "OLD"], ["outroot/%s_conv.xml" % stem, "OLD"],
+                    ["outroot/odmlconv_/", None], ["outroot/odmlconv_old/odmlrdf_old/%s.rdf" % stem, "OLD"],
+                    ["cwd/odmlconv_old/odmlrdf_old/%s_conv.rdf" % stem, "OLD"], ["cwd/%s.rdf" % stem, "OLD"],
+                    ["outdir/%s.xml" % stem, "OLD"], ["outdir/keep.txt", "OLD"], ["outdir/sub/%s.odml" % stem, "OLD"],
+                    ["outroot/odmlrdf_/", None], ["outdir/%s.rdf" % stem, "OLD"]]))
+        return {"stream": "runs", "pre": pre, "runs": runs}
 
     def generate(self, tier, rng):
         cases = []
@@ -319,6 +911,7 @@ class C17(fw.Check):
                 nested = rng.random() < 0.6
                 cases.append({"stream": "cli", "tool": tool, "recursive": rng.random() < 0.7,
                               "explicit_out": rng.random() < 0.6, "in_name": rng.choice(DIR_NAMES),
+                              "arg_style": rng.choice(ARG_STYLES),
                               "files": self.files(rng, CLI_KINDS, 6 if tool == "convert" else 4, nested)})
         # every bad kind between two good files, in both creation orders, for both tools
         bad_kinds = [k for k in CLI_KINDS if k.startswith(("empty", "text", "malformed", "othervocab"))]
@@ -333,6 +926,37 @@ class C17(fw.Check):
                 for order in (trio, trio[::-1]):
                     cases.append({"stream": "cli", "tool": tool, "recursive": False, "explicit_out": True,
                                   "in_name": "in", "files": list(order)})
+        # every dtype and every boundary value of the pools through every valid kind and both tools
+        for tool in ("convert", "rdf"):
+            for kind in DOC_KINDS:
+                for native in (True, False):
+                    if kind in NEW_KINDS and (tool == "convert" or not native):
+                        continue
+                    doc = full_doc(native, first_only=(kind == "yaml10"), value_last=(kind == "json10"))
+                    cases.append({"stream": "cli", "tool": tool, "recursive": False, "explicit_out": True,
+                                  "in_name": "in", "files": [{"stem": "full", "kind": kind, "tag": "t1", "sub": "",
+                                                              "doc": doc}]})
+        for fmt in FC_FORMATS:
+            cases.append({"stream": "fc", "fmt": fmt, "recursive": False, "explicit_out": True, "in_name": "in",
+                          "entry": "convert_dir", "trailing_sep": False,
+                          "files": [{"stem": "full", "kind": "xml10" if fmt == "v1_1" else "xml11", "tag": "t1",
+                                     "sub": "", "doc": full_doc(True)}]})
+        # several runs one after the other in the same process, sharing output root / working
+        # directory / explicit output directory, over the same or different input directories
+        for tool in ("convert", "rdf"):
+            for explicit in (True, False):
+                two = [("in0", [{"stem": "a0", "kind": "xml10", "tag": "t1", "sub": ""},
+                                {"stem": "b0", "kind": "xml11", "tag": "t2", "sub": ""}]),
+                       ("in1", [{"stem": "a1", "kind": "json10", "tag": "t3", "sub": ""},
+                                {"stem": "b1", "kind": "yaml11", "tag": "t4", "sub": "sub"}])]
+                runs = []
+                for idx in (0, 1, 0, 1, 1):
+                    runs.append({"stream": "cli", "tool": tool, "recursive": len(runs) % 2 == 1,
+                                 "explicit_out": explicit, "in_name": two[idx][0], "files": two[idx][1]})
+                cases.append({"stream": "runs", "pre": [], "runs": runs})
+        nruns = 30 if tier == "quick" else 1200
+        for _ in range(nruns):
+            cases.append(self.gen_runs(rng))
         nfc = 200 if tier == "quick" else 9000
         for _ in range(nfc):
             fmt = rng.choice(FC_FORMATS)
@@ -341,7 +965,7 @@ class C17(fw.Check):
             cases.append({"stream": "fc", "fmt": fmt, "recursive": rng.random() < 0.75,
                           "explicit_out": rng.random() < 0.6, "in_name": rng.choice(DIR_NAMES),
                           "entry": rng.choice(["convert_dir", "convert_dir", "convert"]),
-                          "trailing_sep": rng.random() < 0.2,
+                          "trailing_sep": rng.random() < 0.2, "relative": rng.random() < 0.2,
                           "files": self.files(rng, kinds, 4, True)})
         # the tools in a child interpreter whose locale encoding is ASCII, on files with wide text
         f = lambda stem, kind, tag, sub="": {"stem": stem, "kind": kind, "tag": tag, "sub": sub}
@@ -357,6 +981,22 @@ class C17(fw.Check):
                          "in_name": "in+w", "entry": "convert_dir", "trailing_sep": False,
                          "files": [f("w%d" % i, k, "t%d" % i, "sub" if i else "") for i, k in enumerate(kinds)]})
         cases.append({"stream": "locale", "cases": subs})
+        # ... and on JSON / YAML files that hold their non-ASCII text as UTF-8 (not as \u escapes),
+        # next to the same documents in pure ASCII
+        def wide_doc(raw):
+            return {"author": u"René TAGQ", "version": None, "date": None, "native": True, "raw_unicode": raw,
+                    "sections": [{"name": u"sec_TAGQ", "type": u"mainsec", "definition": None, "sections": [],
+                                  "props": [{"name": u"prop_TAGQ", "dtype": "string", "values": [u"é€", u"zero"],
+                                             "unit": None, "uncertainty": None, "definition": None},
+                                            {"name": u"count", "dtype": "int", "values": [0], "unit": u"µm",
+                                             "uncertainty": None, "definition": None}]}]}
+        utf = [dict(f("u%d" % i, kind, "t%d" % i), doc=wide_doc(True))
+               for i, kind in enumerate(["json10", "yaml10", "json11", "yaml11"])] + \
+              [dict(f("e%d" % i, kind, "t%d" % i), doc=wide_doc(False))
+               for i, kind in enumerate(["json10", "yaml10", "json11", "yaml11", "xml10", "xml11"])]
+        cases.append({"stream": "locale", "cases": [
+            {"stream": "cli", "tool": "convert", "recursive": False, "explicit_out": True, "in_name": "in", "files": utf},
+            {"stream": "cli", "tool": "rdf", "recursive": False, "explicit_out": True, "in_name": "in", "files": utf}]})
         npath = 400 if tier == "quick" else 5000
         alpha = ["a", "b", ".", "/", "x", "_conv", ".xml", ".odml", ".ttl", "+", " "]
         for _ in range(npath):
@@ -387,34 +1027,69 @@ class C17(fw.Check):
             return {"stem": os.path.splitext(os.path.basename(a))[0], "splitext": list(os.path.splitext(a)),
                     "basename": os.path.basename(a), "join": os.path.join(a, b),
                     "dirname": os.path.dirname(a)}
-        base = os.path.realpath(tempfile.mkdtemp(prefix="c17_"))
+        base = os.path.realpath(tempfile.mkdtemp(prefix="c17_", dir=TMP_ROOT))
         old_cwd = os.getcwd()
         try:
             if case["stream"] == "cli":
                 return self.impl_cli(base, case)
+            if case["stream"] == "runs":
+                return self.impl_runs(base, case)
             return self.impl_fc(base, case)
         finally:
             os.chdir(old_cwd)
             shutil.rmtree(base, ignore_errors=True)
 
+    def impl_runs(self, base, case):
+        for rel, text in case["pre"]:
+            path = os.path.join(base, rel)
+            if rel.endswith("/"):
+                if not os.path.isdir(path):
+                    os.makedirs(path)
+                continue
+            if not os.path.isdir(os.path.dirname(path)):
+                os.makedirs(os.path.dirname(path))
+            with io.open(path, "w", encoding="utf-8") as fh:
+                fh.write(text)
+        subs = []
+        for sub in case["runs"]:
+            subs.append(self.impl_cli(base, sub) if sub["stream"] == "cli" else self.impl_fc(base, sub))
+            os.chdir(base)
+        return {"subs": subs}
+
     def impl_cli(self, base, case):
         tool = case["tool"]
         in_dir = os.path.join(base, case["in_name"])
-        os.makedirs(in_dir)
-        write_inputs(in_dir, case["files"])
-        out_root = os.path.join(base, "outroot" if case["explicit_out"] else "cwd")
-        os.makedirs(out_root)
+        if not os.path.isdir(in_dir):              # (a later run of the "runs" stream finds it there)
+            os.makedirs(in_dir)
+            write_inputs(in_dir, case["files"])
+        out_root = os.path.join(base, case.get("root_name") or ("outroot" if case["explicit_out"] else "cwd"))
+        if not os.path.isdir(out_root):
+            os.makedirs(out_root)
         os.chdir(out_root)
+        style = case.get("arg_style", "abs")
+        in_arg, out_arg = in_dir, out_root
+        if style == "trail":
+            in_arg, out_arg = in_dir + os.sep, out_root + os.sep
+        elif style == "rel":
+            in_arg, out_arg = os.path.relpath(in_dir, out_root), "."
+        elif style == "dot":
+            in_arg = os.path.join(base, ".", os.path.basename(out_root), "..", case["in_name"])
+            out_arg = os.path.join(out_root, ".")
         argv = (["-r"] if case["recursive"] else []) + \
-               (["-o", out_root] if case["explicit_out"] else []) + [in_dir]
-        root = pathlib.Path(in_dir)
+               (["-o", out_arg] if case["explicit_out"] else []) + [in_arg]
+        root = pathlib.Path(in_arg)
         glob = root.rglob if case["recursive"] else root.glob
         order = [str(p.absolute()) for pat in ("*.odml", "*.xml", "*.json", "*.yaml") for p in glob(pat)]
         before_hash = hashes(in_dir)
+        before_all = age_files(base)
         before_paths = all_paths(base)
         result = run_guarded(lambda: cli_module(tool).main(argv))
         after_hash = hashes(in_dir)
-        new = sorted(all_paths(base) - before_paths)
+        after_paths = all_paths(base)
+        new = sorted(after_paths - before_paths)
+        gone = sorted(before_paths - after_paths)
+        in_prefix = case["in_name"] + os.sep
+        touched = [rel for rel in written_again(base, before_all) if not rel.startswith(in_prefix)]
         outputs = {}
         for rel in new:
             if not rel.endswith("/"):
@@ -422,44 +1097,68 @@ class C17(fw.Check):
         out_dirs = [p for p in new if p.endswith("/")]
         alone = {}
         for spec in case["files"]:
-            alone[file_name(spec)] = alone_cli(tool, spec["kind"])
+            alone[file_name(spec)] = alone_cli(tool, spec["kind"], spec.get("doc"))
         return {"base": base, "result": result, "inputs_same": all(after_hash.get(k) == v for k, v in before_hash.items()),
                 "changed_inputs": sorted(k for k in before_hash if after_hash.get(k) != before_hash[k]),
-                "new": new, "outputs": outputs, "out_dirs": out_dirs, "order": order,
+                "new": new, "outputs": outputs, "out_dirs": out_dirs, "order": order, "touched": touched, "gone": gone,
                 "out_root": os.path.relpath(out_root, base), "in_rel": case["in_name"], "alone": alone}
 
     def impl_fc(self, base, case):
         from odml.tools.converters import FormatConverter
         fmt = case["fmt"]
         in_dir = os.path.join(base, case["in_name"])
-        os.makedirs(in_dir)
-        write_inputs(in_dir, case["files"])
+        if not os.path.isdir(in_dir):
+            os.makedirs(in_dir)
+            write_inputs(in_dir, case["files"])
         out_dir = None
         if case["explicit_out"]:
             out_dir = os.path.join(base, "outdir")
-            os.makedirs(out_dir)
+            if not os.path.isdir(out_dir):
+                os.makedirs(out_dir)
+        # without an output directory the converter uses <input>_<format>; a later run finds it there
+        implicit_rel = "%s_%s" % (case["in_name"], fmt)
+        implicit_there = os.path.isdir(os.path.join(base, implicit_rel))
         in_arg = in_dir + (os.sep if case["trailing_sep"] else "")
+        out_arg = out_dir
+        if case.get("relative"):                   # both directories relative to the working directory
+            os.chdir(base)
+            in_arg = case["in_name"] + (os.sep if case["trailing_sep"] else "")
+            out_arg = "outdir" if out_dir else None
         top = os.path.join(in_arg, "")
         if case["recursive"]:
             entries = [[d, n] for d, _s, names in os.walk(top) for n in names]
         else:
             entries = [[top, n] for n in os.listdir(top) if os.path.isfile(os.path.join(top, n))]
         before_hash = hashes(in_dir)
+        before_all = age_files(base)
         before_paths = all_paths(base)
         if case["entry"] == "convert":
-            argv = [in_arg, fmt] + (["-out", out_dir] if out_dir else []) + (["-r"] if case["recursive"] else [])
+            argv = [in_arg, fmt] + (["-out", out_arg] if out_dir else []) + (["-r"] if case["recursive"] else [])
             result = run_guarded(lambda: FormatConverter.convert(argv))
         else:
-            result = run_guarded(lambda: FormatConverter.convert_dir(in_arg, out_dir, case["recursive"], fmt))
+            result = run_guarded(lambda: FormatConverter.convert_dir(in_arg, out_arg, case["recursive"], fmt))
         after_hash = hashes(in_dir)
-        new = sorted(all_paths(base) - before_paths)
+        after_paths = all_paths(base)
+        new = sorted(after_paths - before_paths)
+        gone = sorted(before_paths - after_paths)
+        in_prefix = case["in_name"] + os.sep
+        touched = [rel for rel in written_again(base, before_all) if not rel.startswith(in_prefix)]
         outputs = {}
-        for rel in new:
-            if not rel.endswith("/"):
+        for rel in new + touched:                  # written = created or written again
+            if not rel.endswith("/") and os.path.isfile(os.path.join(base, rel)):
                 outputs[rel] = signature(os.path.join(base, rel))
+        # what older files of the output directory hold (results of an earlier run that this run
+        # did not write again)
+        standing = {}
+        where = out_dir or (os.path.join(base, implicit_rel) if implicit_there else None)
+        if where:
+            for rel in hashes(where):
+                full = os.path.relpath(os.path.join(where, rel), base)
+                if full in before_all and full not in outputs:
+                    standing[full] = signature(os.path.join(base, full))
         alone = {}
         for spec in case["files"]:
-            alone[file_name(spec)] = alone_fc(fmt, spec["kind"])
+            alone[file_name(spec)] = alone_fc(fmt, spec["kind"], spec.get("doc"))
         try:
             from odml.tools.converters.format_converter import CONVERSION_FORMATS
             ext = CONVERSION_FORMATS.get(fmt)
@@ -467,7 +1166,8 @@ class C17(fw.Check):
             ext = None
         return {"base": base, "result": result, "inputs_same": all(after_hash.get(k) == v for k, v in before_hash.items()),
                 "changed_inputs": sorted(k for k in before_hash if after_hash.get(k) != before_hash[k]),
-                "new": new, "outputs": outputs, "entries": entries, "in_rel": case["in_name"],
+                "new": new, "outputs": outputs, "entries": entries, "in_rel": case["in_name"], "touched": touched, "gone": gone, "standing": standing,
+                "implicit_there": implicit_rel if implicit_there and not out_dir else None,
                 "out_rel": "outdir" if out_dir else None, "alone": alone, "ext": ext,
                 "top": top, "in_arg": in_arg}
 
@@ -477,6 +1177,11 @@ class C17(fw.Check):
             out = []
             for sub, o in zip(case["cases"], obs["subs"]):
                 out += self.model_requests(sub, o)[:1]
+            return out
+        if case["stream"] == "runs":
+            out = []
+            for sub, o in zip(case["runs"], obs["subs"]):
+                out += self.model_requests(sub, o)
             return out
         P = {"p": "C17"}
         if case["stream"] == "paths":
@@ -545,6 +1250,8 @@ class C17(fw.Check):
         if obs["out_rel"]:
             return os.path.join(obs["base"], obs["out_rel"])
         tops = [d for d in obs["new"] if d.endswith("/") and d.count("/") == 1]
+        if not tops and obs.get("implicit_there"):
+            return os.path.join(obs["base"], obs["implicit_there"])    # <input>_<format> of an earlier run
         if len(tops) != 1:
             return None
         return os.path.join(obs["base"], tops[0][:-1])
@@ -555,6 +1262,13 @@ class C17(fw.Check):
             for i, (sub, o) in enumerate(zip(case["cases"], obs["subs"])):
                 n = len(self.model_requests(sub, o)[:1])
                 out += ["sub-case %d: %s" % (i, d) for d in self.compare(sub, o, answers[k:k + n])]
+                k += n
+            return out
+        if case["stream"] == "runs":
+            out, k = [], 0
+            for i, (sub, o) in enumerate(zip(case["runs"], obs["subs"])):
+                n = len(self.model_requests(sub, o))
+                out += ["run %d: %s" % (i, d) for d in self.compare(sub, o, answers[k:k + n])]
                 k += n
             return out
         if not answers:
@@ -589,10 +1303,10 @@ class C17(fw.Check):
                 if text != "IN:" + os.path.basename(path):
                     out.append("model changes input %s to %r" % (os.path.relpath(path, base), text))
             elif text is not None:
-                written[os.path.relpath(os.path.normpath(path), base)] = text
+                written[os.path.relpath(os.path.normpath(os.path.join(base, path)), base)] = text
         if case["stream"] == "fc" and len(answers) > 1:
             made = self.fc_out_dir(case, obs)
-            if made is not None and answers[1] != made:
+            if made is not None and os.path.normpath(os.path.join(base, answers[1])) != made:
                 out.append("made-up output directory: model %r, implementation %r" % (answers[1], made))
         if written != obs["outputs"]:
             only_m = dict((k, v) for k, v in written.items() if obs["outputs"].get(k) != v)
@@ -610,6 +1324,12 @@ class C17(fw.Check):
                 out += ["sub-case %d (%s %s): %s" % (i, sub["stream"], sub.get("tool") or sub.get("fmt"), f)
                         for f in self.oracle(sub, o)]
             return out
+        if case["stream"] == "runs":
+            out = []
+            for i, (sub, o) in enumerate(zip(case["runs"], obs["subs"])):
+                out += ["run %d (%s %s on %s): %s" % (i, sub["stream"], sub.get("tool") or sub.get("fmt"),
+                                                     sub["in_name"], f) for f in self.oracle(sub, o)]
+            return out
         out = []
         if not obs["inputs_same"]:
             out.append("input files changed: %s" % obs["changed_inputs"])
@@ -617,6 +1337,8 @@ class C17(fw.Check):
         inside = [p for p in obs["new"] if p.startswith(in_prefix)]
         if inside:
             out.append("files created inside the input directory: %s" % inside)
+        if obs.get("gone"):
+            out.append("paths that existed before the run were removed: %s" % obs["gone"])
         specs = dict((file_name(s), s) for s in case["files"])
         bad_out = dict((k, v) for k, v in obs["outputs"].items() if v.startswith("UNREADABLE"))
         if case["stream"] == "cli":
@@ -629,6 +1351,11 @@ class C17(fw.Check):
             outside = [p for p in obs["new"] if not (conv and p.startswith(conv[0]))]
             if outside:
                 out.append("paths created outside the new output directory: %s" % outside)
+            # "writes only into a newly created output location": nothing that was there before the
+            # run (results of earlier runs, other material in the output root, other directories)
+            # is changed, removed or written again
+            if obs.get("touched"):
+                out.append("files that existed before the run were written: %s" % obs["touched"])
             # isolation: the batch gives every file what it gets alone
             expected = {}
             cands = {}
@@ -658,17 +1385,24 @@ class C17(fw.Check):
                 kind = spec["kind"]
                 outs = obs["alone"][file_name(spec)]["outs"]
                 want = []
-                if kind in ("xml10", "json10", "yaml10", "xml10w"):
+                if kind in OLD_KINDS:
                     want.append("OUT/STEMX_conv.xml")
                     if case["tool"] == "rdf":
                         want.append("OUT/RDF/STEMX_conv.rdf")
-                elif kind in ("xml11", "odml11", "json11", "yaml11", "xml11w") and case["tool"] == "rdf":
+                elif kind in NEW_KINDS and case["tool"] == "rdf":
                     want.append("OUT/RDF/STEMX.rdf")
                 for key in want:
                     sig = outs.get(key)
-                    if sig is None or "sec_TAGX" not in sig or "prop_TAGX" not in sig:
-                        out.append("valid %s file gets no proper output %s from %s (found %r)"
-                                   % (kind, key.replace("STEMX", "<stem>"), case["tool"], sig))
+                    if sig is None or (spec.get("doc") is None and
+                                       ("sec_TAGX" not in sig or "prop_TAGX" not in sig)):
+                        out.append("valid %s file gets no proper output %s from %s (found %r) [file %s]"
+                                   % (kind, key.replace("STEMX", "<stem>"), case["tool"], sig, file_name(spec)))
+                    else:
+                        # ... "with the content of its source": every attribute and value
+                        diffs = content_failure(spec, sig)
+                        if diffs:
+                            out.append("output %s of a valid %s file (%s) does not hold the content of its "
+                                       "source: %s" % (key.replace("STEMX", "<stem>"), kind, case["tool"], diffs))
             unread = dict((k, v) for k, v in bad_out.items() if k.endswith(".rdf") or k.endswith("_conv.xml"))
             if unread:
                 out.append("outputs do not load: %s" % unread)
@@ -683,6 +1417,12 @@ class C17(fw.Check):
                 stray = [p for p in obs["new"] if not (p.startswith(rel_out) or p == rel_out)]
                 if stray:
                     out.append("paths created outside the output directory %s: %s" % (rel_out, stray))
+            # files that were there before the run may be written again only inside the output
+            # directory (explicitly given, or <input>_<format>)
+            old_hit = [p for p in obs.get("touched", []) if rel_out is None or not p.startswith(rel_out)]
+            if old_hit:
+                out.append("files outside the output directory that existed before the run were written: %s"
+                           % old_hit)
             considered = [s for s in case["files"] if case["recursive"] or not s["sub"]]
             convertible = [s for s in considered if obs["alone"][file_name(s)]["result"] == "ok"]
             if len(convertible) == len(considered):
@@ -692,7 +1432,22 @@ class C17(fw.Check):
                               for s in considered if obs["alone"][file_name(s)]["outs"])
                 got = sorted(obs["outputs"].values())
                 if obs["result"] == "ok" and want != got:
-                    out.append("outputs %s do not carry the content of their sources %s" % (got, want))
+                    # weaker reading for a repeated run into the same directory: a result of an
+                    # earlier run that still stands there, unwritten, counts as the output
+                    rest = list(got)
+                    lacking = []
+                    for sig in want:
+                        if sig in rest:
+                            rest.remove(sig)
+                        else:
+                            lacking.append(sig)
+                    old = list(obs.get("standing", {}).values())
+                    for sig in list(lacking):
+                        if sig in old:
+                            old.remove(sig)
+                            lacking.remove(sig)
+                    if rest or lacking:
+                        out.append("outputs %s do not carry the content of their sources %s" % (got, want))
             if bad_out:
                 out.append("outputs do not load: %s" % bad_out)
             good = FC_GOOD["v1_1" if case["fmt"] == "v1_1" else "other"]
@@ -700,9 +1455,15 @@ class C17(fw.Check):
                 if spec["kind"] in good:
                     al = obs["alone"][file_name(spec)]
                     sigs = list(al["outs"].values())
-                    if al["result"] != "ok" or len(sigs) != 1 or "sec_TAGX" not in sigs[0]:
+                    if al["result"] != "ok" or len(sigs) != 1 or \
+                            (spec.get("doc") is None and "sec_TAGX" not in sigs[0]):
                         out.append("valid %s file is not converted to %s alone: %s %s"
                                    % (spec["kind"], case["fmt"], al["result"], sigs))
+                    else:
+                        diffs = content_failure(spec, sigs[0])
+                        if diffs:
+                            out.append("the %s output of a valid %s file does not hold the content of its "
+                                       "source: %s" % (case["fmt"], spec["kind"], diffs))
         return out
 
     def finding_key(self, case, obs, failure):
@@ -712,6 +1473,18 @@ class C17(fw.Check):
             stems = set(s["stem"] for s in case["files"])
             if any(s + "_conv" in stems for s in stems):
                 return "C17-odmltordf-conv-name-collision"
+        # a JSON / YAML file holding non-ASCII text as UTF-8, read in a process whose locale encoding
+        # is not UTF-8: only this file kind, only in that configuration, only "no output"
+        if case.get("stream") == "locale" and "utf" not in str(obs.get("encoding", "")).lower().replace("-", ""):
+            import re
+            hit = re.match(r"sub-case (\d+) \(cli \w+\): valid (json10|yaml10|json11|yaml11) file gets no proper "
+                           r"output .* \(found None\) \[file (.*)\]$", failure)
+            if hit and int(hit.group(1)) < len(case["cases"]):
+                for spec in case["cases"][int(hit.group(1))]["files"]:
+                    if file_name(spec) == hit.group(3) and spec["kind"] == hit.group(2) and \
+                            (spec.get("doc") or {}).get("raw_unicode") and \
+                            any(ord(ch) > 127 for ch in content(spec["kind"], spec["tag"], spec["doc"])):
+                        return "C17-json-yaml-read-locale-encoding"
         return None
 
     def tag(self, case, obs):
@@ -720,6 +1493,8 @@ class C17(fw.Check):
             return ("paths", True)
         if st == "locale":
             return ("locale:%s" % obs.get("encoding"), True)
+        if st == "runs":
+            return ("runs:%d" % len(case["runs"]), True)
         nout = len(obs.get("outputs", {}))
         nfiles = len(case["files"])
         nested = any(s["sub"] for s in case["files"])
